@@ -736,6 +736,27 @@ def check_algorithm(ctx, cfg, lits64, lits32, binary):
             if a != m:
                 ctx.disagreements.append({'input': l, 'impl': a, 'model': m, 'cfg': cfg, 'op': 'ef'})
                 v.append({'what': 'extended-float-model-differs', 'cfg': cfg, 'input': l, 'expected': 'Model/Lex.v: ' + m, 'actual': a, 'shrinkable': False})
+    # round_to_native/into_float of the model against Flocq's round-to-nearest-even of mant * 2^exp (model only):
+    # together with the `ef round` comparison above this ties the real rounding code to IEEE RNE on these cases
+    if mo is not None:
+        rn = []
+        for _ in range(15000 if ctx.tier == 'quick' else 150000):
+            k = rng.choice('dds')
+            lo_e, hi_e = (-1160, 1000) if k == 'd' else (-230, 80)
+            sh = 11 if k == 'd' else 40
+            mm = rng.randrange(1 << 63, 1 << 64) if rng.random() < 0.8 else rng.randrange(1, 1 << rng.randrange(1, 64))
+            if rng.random() < 0.5:
+                sh2 = rng.choice([sh, sh, sh + 1, rng.randrange(sh, 64)])
+                mm = (mm >> sh2 << sh2) | rng.choice([1 << (sh2 - 1), (1 << sh2) - 1, (1 << (sh2 - 1)) + 1, (1 << (sh2 - 1)) - 1, 0, 1])
+            e = rng.choice([rng.randrange(lo_e, hi_e), -1074 - 63 + rng.randrange(-3, 14), -1139 + rng.randrange(-3, 4), 960 + rng.randrange(-2, 3),
+                            -149 - 63 + rng.randrange(-3, 44), 64 + rng.randrange(-2, 3)])
+            rn.append('ef rne %s %d %d' % (k, mm, e))
+        ro = model_lines(ctx, rn, 'sjdriver_lex')
+        for l, o in zip(rn, ro or []):
+            f = o.split(' ')
+            if len(f) != 2 or f[0] != f[1]:
+                v.append({'what': 'model-rounding-differs-from-flocq-rne', 'cfg': cfg, 'input': l, 'expected': 'Flocq binary_normalize: ' + f[-1], 'actual': 'Model/Lex.v into_float: ' + f[0], 'shrinkable': False})
+        ctx.count('ef-rne-compared', len(rn))
     return v
 
 def to_limbs(x):
@@ -804,7 +825,11 @@ def check_bigint(ctx, cfg, binary):
             if reach:
                 v.append(rec)
             else:
-                ctx.disagreements.append(rec)
+                # operands larger than any the parser can produce (x.len() + power.len() >= 64 limbs: Karatsuba path of math.rs):
+                # recorded as an observation, not as a violation of C07 (known: index-out-of-bounds panic in karatsuba_mul, math.rs long_mul y[0])
+                ctx.count('observation:bigint-beyond-parser-range-failures')
+                if ctx.hist['observation:bigint-beyond-parser-range-failures'] == 1:
+                    ctx.sample({'observation': 'limb arithmetic fails beyond the parser\'s operand range (unreachable code)', 'op': line[:200], 'actual': a[:80]})
     ctx.count('bigint-ops', len(cases))
     return v
 
@@ -845,8 +870,9 @@ def run_c07(ctx, extended=False):
         fr = 'float_roundtrip' in feats
         keep64, keep32 = [], []
         if fr:
+            cscale = scale if cfg == 'fr' else max(1, scale // 3)      # the second float_roundtrip configuration repeats the families at a third of the volume
             for fam, fmt, target, keep in ((family_f64, F64, 'f64', keep64), (family_f32, F32, 'f32', keep32)):
-                for batch in chunks(fam(ctx, scale), 250000):
+                for batch in chunks(fam(ctx, cscale), 250000):
                     lits = [l for _, l in batch]
                     for name, _ in batch:
                         ctx.count(target + ':' + name.split('@')[0])
